@@ -116,6 +116,14 @@ def list_valued_union_child(schema, original, local):
     return any(len((e.text or '').split()) > 1 for e in original.iter() if e.tag.rsplit('}', 1)[-1] == local)
 
 
+def empty_value_of_repeatable_list_child(schema, original):
+    """Does the document hold an element of a plain list type, declared repeatable, with an empty value?"""
+    from xmlschema.validators import XsdElement
+    names = {c.local_name for c in schema.iter_components(XsdElement)
+             if c.type is not None and c.type.is_list() and (c.max_occurs is None or c.max_occurs > 1)}
+    return any(not (e.text or '').strip() for e in original.iter() if e.tag.rsplit('}', 1)[-1] in names)
+
+
 def normalise_reason(r):
     r = clean_reason(r or '')
     r = re.sub(r"'[^']*'", '?', r)
@@ -201,6 +209,13 @@ def run_shard(spec, res):
                     # a union with a list member decodes to a Python list, which the dict-shaped conventions read
                     # back as repeated elements: keyed by that cause, not by the message
                     res.violation(f'roundtrip:list-value-of-union-type-read-back-as-repeated-elements:{cname}', case,
+                                  f'{fam} {cname} {case["options"]}: {clean_reason(e.reason)[:160]}')
+                    continue
+                if cname != 'jsonml' and 'None is not an instance of' in (e.reason or '') and \
+                        empty_value_of_repeatable_list_child(schema, original):
+                    # the empty value of a list type decodes to None (or [None]): among the collected values of a repeated
+                    # element the dict-shaped conventions read it back as an item of a list value
+                    res.violation(f'roundtrip:empty-value-of-repeatable-list-typed-element-read-back-as-list-item:{cname}', case,
                                   f'{fam} {cname} {case["options"]}: {clean_reason(e.reason)[:160]}')
                     continue
                 res.violation(f'roundtrip:encode-rejects-decoded-data:{cname}:{normalise_reason(e.reason)}', case,
